@@ -13,7 +13,7 @@ TECHNIQUE = "Coq proof that every package decoder is 'streamable' (by closure of
 RULE = ("for every valid encoding generated for the package layer (all registered kinds; formats over all data types; params/rows over all decodable data types "
         "and all valid data lengths, with and without status byte; optional parts; boundary string lengths) EVERY proper prefix (length 0..len-1) is fed to the implementation's "
         "LookupPackage+LastPkg+ReadFrom on a bounded queue; the list of result classes is compared with the model's and must be all 'not enough bytes'. "
-        "One case = one encoding with all its prefixes; non-trivial = encoding longer than 2 bytes; distinct by (token, bytes, context). Channel level: multi-round histories and many-cut / fixed-size packetisations of whole responses are fed to the real Channel.WritePacket; no parse error may surface for a merely fragmented response and the events must equal the model's (whose independence of the fragmentation is C02's theorem).")
+        "One case = one encoding with all its prefixes; non-trivial = encoding longer than 2 bytes; distinct by (token, bytes, context). Channel level: multi-round histories and many-cut / fixed-size packetisations of whole responses are fed to the real Channel.WritePacket; no parse error may surface for a merely fragmented response and the events must equal the model's (whose independence of the fragmentation is C02's theorem). Channel level: also with Channel.Reset() between the packets and with empty packets anywhere.")
 TRUSTED = ["Coq 8.16.1 kernel + vm_compute", "hand-written decoders in coq/theories/Pkg (tied by this correspondence and by C06/C10's)",
            "data-type tables re-tabulated from the code (Gen/GenPkg.v)", "harness/pk (reference encoders), tds/verif_hooks.go, ocaml/driver.ml, extraction (ExtrOcamlBasic)"]
 ASSUMPTIONS = ["BLOB (serialised Java object) field data is not modelled (never generated)",
